@@ -210,7 +210,7 @@ package keeper
 //@   ensures err == nil ==> minterParamsValid(snap(p)) && $kvHas[storeOf(k.storeKey)][mpKey()] && $kvVal[storeOf(k.storeKey)][mpKey()] == enc(p)
 //@   ensures forall id :: {paramsContainSeq(snap(p), id)} paramsContainSeq(snap(p), id) == old(paramsContainSeq(snap(p), id))
 //@   ensures kvOnlyChanged(storeOf(k.storeKey), mpKey())
-//@   prop C13 C20
+//@   prop C13 C20 C10
 //@ func (k Keeper) UpdateParams(ctx, authority, params) (err)
 //@   panic_requires seqIdsInRange(params.Minters)
 //@   modifies $kvHas, $kvVal, elems(params.Minters)
@@ -218,7 +218,7 @@ package keeper
 //@   ensures err != nil ==> kvUnchanged()
 //@   ensures err == nil ==> authority == k.authority && storedMinterParamsOK(k) && $kvVal[storeOf(k.storeKey)][mpKey()] == enc(params)
 //@   ensures kvOnlyChanged(storeOf(k.storeKey), mpKey())
-//@   prop C13 C20
+//@   prop C13 C20 C10
 //@ func (k msgServer) UpdateMintersParams(goCtx, msg) (resp, err)
 //@   requires msg != nil
 //@   panic_requires seqIdsInRange(msg.Minters)
@@ -227,7 +227,7 @@ package keeper
 //@   ensures err != nil ==> kvUnchanged()
 //@   ensures err == nil ==> msg.Authority == k.authority && storedMinterParamsOK(k.Keeper)
 //@   ensures kvOnlyChanged(storeOf(k.storeKey), mpKey())
-//@   prop C13 C20
+//@   prop C13 C20 C10
 //@ func (k msgServer) UpdateParams(goCtx, msg) (resp, err)
 //@   requires msg != nil
 //@   panic_requires seqIdsInRange(msg.Minters)
@@ -236,7 +236,7 @@ package keeper
 //@   ensures err != nil ==> kvUnchanged()
 //@   ensures err == nil ==> msg.Authority == k.authority && storedMinterParamsOK(k.Keeper)
 //@   ensures kvOnlyChanged(storeOf(k.storeKey), mpKey())
-//@   prop C13 C20
+//@   prop C13 C20 C10
 
 //@ // store iteration is not modelled: these accessors are assumed total (no claim about what they return)
 //@ // store iteration is not modelled: the history list is assumed to be the recorded entries (each agrees with the ghost view)
